@@ -296,6 +296,15 @@ func runVecHistory(r *rand.Rand, p vecParams, o vecHistOpts, t *Trace) *Case {
 				if len(resident) > 0 && r.Intn(5) == 0 && dim == p.dim {
 					qs[i] = cloneVec(resident[r.Intn(len(resident))].raw)
 				}
+				if p.metric == 2 && r.Intn(3) == 0 {
+					// cosine: a query far from unit length (the index must normalise it before ranking
+					// centroids and scoring; raw dot products leave [-1,1] and get clamped)
+					sc := []float32{8, 40, 0.05}[r.Intn(3)]
+					for j := range qs[i] {
+						qs[i][j] *= sc
+					}
+					t.Stat("vec.query_cosine_far_from_unit")
+				}
 				if r.Intn(30) == 0 {
 					for j := range qs[i] {
 						qs[i][j] = 0
@@ -330,8 +339,26 @@ func runVecHistory(r *rand.Rand, p vecParams, o vecHistOpts, t *Trace) *Case {
 			n := len(resident)
 			ks := []int{-1, 0, 1, 2, 3, n - 1, n, n + 1, 100}
 			k := ks[r.Intn(len(ks))]
+			nps := []int{-1, 0, 1, p.nlist - 1, p.nlist, p.nlist + 1, 2}
+			np := nps[r.Intn(len(nps))]
 			thr := float32(0)
-			switch r.Intn(10) {
+			thrCase := r.Intn(10)
+			if p.kind >= 2 && thrCase <= 2 && r.Intn(2) == 0 {
+				thrCase = 6 // the code-based kinds report their own score: put the threshold exactly on one
+			}
+			switch thrCase {
+			case 6, 7:
+				// exactly a score this index reports for the query (whatever the kind's score is): the
+				// boundary of "score <= threshold" in the kind's own arithmetic
+				if nq > 0 && len(qs[0]) == p.dim {
+					probe, pe := idx.NewSearch().WithQuery(cloneVec(qs[0])).WithK(0).WithNProbes(np).Execute()
+					if pe == nil && len(probe) > 0 {
+						thr = probe[r.Intn(len(probe))].Score
+						if thr > 0 {
+							t.Stat("vec.threshold_equals_a_reported_score")
+						}
+					}
+				}
 			case 0, 1, 2:
 				if len(resident) > 0 && nq > 0 && len(qs[0]) == p.dim {
 					// exactly an existing distance, so that <= vs < is visible
@@ -353,8 +380,6 @@ func runVecHistory(r *rand.Rand, p vecParams, o vecHistOpts, t *Trace) *Case {
 			if r.Intn(10) < 3 {
 				cutoff = r.Intn(3)
 			}
-			nps := []int{-1, 0, 1, p.nlist - 1, p.nlist, p.nlist + 1, 2}
-			np := nps[r.Intn(len(nps))]
 			s := idx.NewSearch().WithK(k).WithThreshold(thr).WithScoreAggregation(aggs[aggz]).WithCutoff(cutoff).WithNProbes(np)
 			if nq > 0 {
 				qc := make([][]float32, nq)
